@@ -279,23 +279,38 @@ impl S3OcflStore {
         src_dir: impl AsRef<Path>,
     ) -> Result<Vec<String>> {
         self.do_with_rollback(Vec::new(), |done: &mut Vec<String>| -> Result<()> {
+            let mut files = Vec::new();
+
             for file in WalkDir::new(src_dir.as_ref()) {
+                let file = file?;
+                if !file.file_type().is_dir() {
+                    files.push(file.into_path());
+                }
+            }
+
+            // The inventory in the directory itself and then its sidecar are uploaded last. For a
+            // new object this is the root inventory, which must not exist before the files that it
+            // describes do.
+            files.sort_by_key(|file| {
+                match file.strip_prefix(src_dir.as_ref()).ok().and_then(|p| p.to_str()) {
+                    Some(INVENTORY_FILE) => 1,
+                    Some(name) if name.starts_with(INVENTORY_SIDECAR_PREFIX) => 2,
+                    _ => 0,
+                }
+            });
+
+            for file in files {
                 // Want an error returned here so that we rollback
                 self.ensure_open()?;
 
-                let file = file?;
-                if file.file_type().is_dir() {
-                    continue;
-                }
-
-                let relative_path = pathdiff::diff_paths(file.path(), src_dir.as_ref())
+                let relative_path = pathdiff::diff_paths(&file, src_dir.as_ref())
                     .unwrap()
                     .to_string_lossy()
                     .to_string();
                 let content_path = util::convert_backslash_to_forward(relative_path.as_ref());
                 let storage_path = join(dst_path, content_path.as_ref());
                 self.s3_client
-                    .put_object_file(&storage_path, file.path(), None)?;
+                    .put_object_file(&storage_path, &file, None)?;
                 done.push(storage_path);
             }
             Ok(())
